@@ -671,6 +671,7 @@ func TestC12(t *testing.T) {
 	var cases []tc
 	if _, ok := replayInput(); !ok {
 		c12ServerAtEOF(res, rng)
+		c12ServerTruncated(res)
 	}
 	kinds := []string{"split:10", "split:255", "split:195", "hdr:0:-", "hdr:1:-", "hdr:0:" + hxs("Text/X-Case"), "hdr:1:" + hxs("Text/X-Case"), "hdr:0:" + hxs("text/x"), "hdr:1:" + hxs("text/x"), "hdr:1:" + hxs(lspType), "raw"}
 	if in, ok := replayInput(); ok {
@@ -860,6 +861,37 @@ func c12ServerAtEOF(res *Result, rng *rand.Rand) {
 				res.Violatef("a record delivered together with the end of the stream was not handled by the server", in, "stream %q: handled %v, want %v", stream, got, w)
 			}
 			mu.Unlock()
+		}
+	}
+}
+
+// c12ServerTruncated: a stream that ends in the middle of a record is an error of the framing, and
+// the consumer must see it as one: the server's exit status reports it (it is not a clean close);
+// a stream that ends between records is a clean close.
+func c12ServerTruncated(res *Result) {
+	rec := `{"jsonrpc":"2.0","method":"note","params":[1]}`
+	for _, kind := range []string{"hdr:0:-", "hdr:1:" + hxs(lspType), "raw"} {
+		full, _, _ := sendAll(kind, [][]byte{[]byte(rec), []byte(rec)})
+		for _, cut := range []int{len(full), len(full) - 3, len(full) - len(rec)/2} {
+			stream := full[:cut]
+			srv := jrpc2.NewServer(handler.Map{"note": handler.New(func(_ context.Context, v []int) error { return nil })}, nil)
+			srv.Start(framingByName(kind)(io.NopCloser(bytes.NewReader(stream)), &bufWC{}))
+			done := make(chan jrpc2.ServerStatus, 1)
+			go func() { done <- srv.WaitStatus() }()
+			in := map[string]any{"kind": "server-" + kind, "stream": hx(stream)}
+			res.Case(fmt.Sprintf("server-truncated/%s/%d", kind, len(full)-cut), true, in)
+			res.Count("server-truncated")
+			select {
+			case st := <-done:
+				if cut == len(full) && (st.Err != nil || !st.Closed) {
+					res.Violatef("a stream that ends between records was not a clean close for the server", in, "%s: status %+v", kind, st)
+				}
+				if cut != len(full) && st.Err == nil {
+					res.Violatef("a final record cut off by the end of the stream was not reported: the server exited cleanly", in, "%s, %d bytes missing: status %+v", kind, len(full)-cut, st)
+				}
+			case <-time.After(5 * time.Second):
+				res.Violatef("server did not finish at the end of its input stream", in, "%s", kind)
+			}
 		}
 	}
 }
